@@ -2,6 +2,7 @@ package main
 
 import (
 	"fmt"
+	"go/constant"
 	"go/token"
 	"go/types"
 	"os"
@@ -854,13 +855,87 @@ func (a *knAbs) atomOf(v ssa.Value, kind string) int {
 	return -1
 }
 
-func condAtom(cond ssa.Value) (recv ssa.Value, kind string, neg bool, ok bool) {
-	for {
-		u, isU := cond.(*ssa.UnOp)
-		if !isU || u.Op != token.NOT {
-			break
+// stripBool removes negations and comparisons with boolean constants: the inner condition and
+// whether its sense is inverted.
+func stripBool(cond ssa.Value) (ssa.Value, bool) {
+	neg := false
+	for i := 0; i < 8; i++ {
+		if u, ok := cond.(*ssa.UnOp); ok && u.Op == token.NOT {
+			cond, neg = u.X, !neg
+			continue
 		}
-		cond, neg = u.X, !neg
+		if bo, ok := cond.(*ssa.BinOp); ok && (bo.Op == token.EQL || bo.Op == token.NEQ) {
+			var other ssa.Value
+			var cn *ssa.Const
+			if c, ok := bo.Y.(*ssa.Const); ok {
+				other, cn = bo.X, c
+			} else if c, ok := bo.X.(*ssa.Const); ok {
+				other, cn = bo.Y, c
+			}
+			if cn != nil && cn.Value != nil && cn.Value.Kind() == constant.Bool {
+				same := constant.BoolVal(cn.Value) == (bo.Op == token.EQL) // x == true, x != false
+				cond = other
+				if !same {
+					neg = !neg
+				}
+				continue
+			}
+		}
+		break
+	}
+	return cond, neg
+}
+
+func condAtom(cond ssa.Value) (recv ssa.Value, kind string, neg bool, ok bool) {
+	cond, neg = stripBool(cond)
+	// x.Type() == cty.DynamicPseudoType: the type of x is not known yet ("IsDyn")
+	if bo, isBin := cond.(*ssa.BinOp); isBin && (bo.Op == token.EQL || bo.Op == token.NEQ) {
+		for _, pr := range [][2]ssa.Value{{bo.X, bo.Y}, {bo.Y, bo.X}} {
+			ld, isLd := pr[1].(*ssa.UnOp)
+			if !isLd || ld.Op != token.MUL {
+				continue
+			}
+			g, isG := ld.X.(*ssa.Global)
+			if !isG || g.Pkg == nil || g.Pkg.Pkg.Path() != ctyPath || g.Name() != "DynamicPseudoType" {
+				continue
+			}
+			tv := pr[0]
+			// a local that holds x.Type(): the store that reaches this load
+			if l2, ok := tv.(*ssa.UnOp); ok && l2.Op == token.MUL {
+				if al, ok := l2.X.(*ssa.Alloc); ok {
+					if st := reachingStore(al, l2); st != nil {
+						tv = st.Val
+					}
+				}
+			}
+			if call, isCall := tv.(*ssa.Call); isCall {
+				if cal := call.Call.StaticCallee(); cal != nil && isCtyValueMethod(cal) && cal.Name() == "Type" && len(call.Call.Args) == 1 {
+					if bo.Op == token.NEQ {
+						neg = !neg
+					}
+					return call.Call.Args[0], "IsDyn", neg, true
+				}
+			}
+		}
+	}
+	// x.Type().Equals(cty.DynamicPseudoType)
+	if eq, isCall := cond.(*ssa.Call); isCall && len(eq.Call.Args) == 2 {
+		if cal := eq.Call.StaticCallee(); cal != nil && cal.Name() == "Equals" && cal.Signature.Recv() != nil && isNamed(cal.Signature.Recv().Type(), ctyPath, "Type") {
+			for _, pr := range [][2]ssa.Value{{eq.Call.Args[0], eq.Call.Args[1]}, {eq.Call.Args[1], eq.Call.Args[0]}} {
+				ld, isLd := pr[1].(*ssa.UnOp)
+				if !isLd {
+					continue
+				}
+				if g, isG := ld.X.(*ssa.Global); !isG || g.Name() != "DynamicPseudoType" {
+					continue
+				}
+				if call, isCall := pr[0].(*ssa.Call); isCall {
+					if c2 := call.Call.StaticCallee(); c2 != nil && isCtyValueMethod(c2) && c2.Name() == "Type" && len(call.Call.Args) == 1 {
+						return call.Call.Args[0], "IsDyn", neg, true
+					}
+				}
+			}
+		}
 	}
 	call, isCall := cond.(*ssa.Call)
 	if !isCall || len(call.Call.Args) == 0 {
@@ -1115,4 +1190,43 @@ func (e *knownEngine) guardedByPaths(v ssa.Value, b *ssa.BasicBlock, f knownFact
 		return true, "IsKnown() holds on every path that reaches here"
 	}
 	return true, "IsNull() is false on every path that reaches here"
+}
+
+// reachingStore: the one store into the local cell that can reach the load: it dominates the load
+// and the load cannot be reached from any other store to the cell.
+func reachingStore(al *ssa.Alloc, ld *ssa.UnOp) *ssa.Store {
+	var cands []*ssa.Store
+	for _, st := range storesInto(al) {
+		if st.Addr != ssa.Value(al) {
+			return nil
+		}
+		sb, lb := st.Block(), ld.Block()
+		if sb == lb {
+			before := false
+			for _, ins := range sb.Instrs {
+				if ins == ssa.Instruction(st) {
+					before = true
+				}
+				if ins == ssa.Instruction(ld) {
+					break
+				}
+			}
+			if before {
+				cands = append(cands, st)
+				continue
+			}
+		}
+		if sb != lb && sb.Dominates(lb) {
+			cands = append(cands, st)
+			continue
+		}
+		// a store elsewhere: must not reach the load
+		if reachFrom(sb.Parent(), sb)[lb] {
+			return nil
+		}
+	}
+	if len(cands) == 1 {
+		return cands[0]
+	}
+	return nil
 }
